@@ -255,7 +255,7 @@ theorem write_images_cases (C : Codec) (H : Bytes → String) (cs : Nat) (s : St
         (encodeHeader (zeroTableHeader size cs ((wantLens size.toNat cs).length + 1)) ::
           appendImages (encodeHeader (zeroTableHeader size cs ((wantLens size.toNat cs).length + 1)))
             ((fillChunks (wantLens size.toNat cs) s.data).1.map C.enc)) ++ [final] ∧
-        (writeAndClose C H cs s size hash).result = .ok n) := by
+        (writeAndClose C H cs s size hash).result = .ok n ∧ n = (final.length : Int)) := by
   unfold writeAndClose
   simp only [hpos, if_false]
   split
@@ -266,7 +266,7 @@ theorem write_images_cases (C : Codec) (H : Bytes → String) (cs : Nat) (s : St
   · left; rfl
   split
   · left; rfl
-  · right; exact ⟨_, _, rfl, rfl⟩
+  · right; exact ⟨_, _, rfl, rfl, rfl⟩
 
 /-- **an interrupted compressed upload is never served**: every file image that exists before the
     final chunk-table write of `WriteAndClose` — the header alone, or the header followed by any
@@ -303,7 +303,7 @@ theorem nonfinal_images_rejected (C : Codec) (H : Bytes → String) (cs : Nat)
       obtain ⟨body, hb⟩ := appendImages_prefix _ _ _ x hx'
       rw [hb]
       exact zero_header_rejected size cs _ hwl hs hcs2 hfit body h
-  rcases write_images_cases C H cs s size hash (by omega) with hi | ⟨final, n, hi, hr⟩
+  rcases write_images_cases C H cs s size hash (by omega) with hi | ⟨final, n, hi, hr, _⟩
   · right; rw [hi] at himg; exact hrej img himg
   · rw [hi] at himg
     simp only [List.mem_append, List.mem_singleton] at himg
@@ -313,5 +313,33 @@ theorem nonfinal_images_rejected (C : Codec) (H : Bytes → String) (cs : Nat)
       refine ⟨⟨n, hr⟩, ?_⟩
       rw [hi, List.getLast?_append]
       simp [himg]
+
+/-- the value `WriteAndClose` returns is the length of the file it leaves behind -/
+theorem write_ok_len (C : Codec) (H : Bytes → String) (cs : Nat) (s : Stream) (size : Int) (hash : String)
+    (n : Int) (img : Bytes) (hr : (writeAndClose C H cs s size hash).result = .ok n)
+    (hi : (writeAndClose C H cs s size hash).images.getLast? = some img) : n = (img.length : Int) := by
+  by_cases hsz : size ≤ 0
+  · unfold writeAndClose at hr; simp [hsz] at hr
+  rcases write_images_cases C H cs s size hash hsz with h1 | ⟨final, m, h1, h2, h3⟩
+  · exfalso
+    unfold writeAndClose at hr h1
+    simp only [hsz, if_false] at hr h1
+    split at hr
+    · simp at hr
+    split at hr
+    · simp at hr
+    split at hr
+    · simp at hr
+    split at hr
+    · simp at hr
+    · rename_i c1 c2 c3 c4
+      simp only [c1, c2, c3, c4, if_false] at h1
+      have := congrArg List.length h1
+      simp at this
+  · rw [h1, List.getLast?_append] at hi
+    simp only [List.getLast?_singleton, Option.some_or, Option.some.injEq] at hi
+    rw [h2] at hr
+    simp only [Except.ok.injEq] at hr
+    rw [← hr, h3, hi]
 
 end BR.CasBlob
